@@ -38,7 +38,7 @@ def _csv_test(term: ast.AST, evs):
     return None
 
 
-def rule_guard(ctx: Ctx):
+def rule_guard(ctx: Ctx, rule: str = "C11.guard"):
     rep, k = ctx.rep, ctx.k
     fn = ctx.fn("BaseEngine.start")
     n_put = n_ret = 0
@@ -52,24 +52,24 @@ def rule_guard(ctx: Ctx):
             if kind == "none":
                 stored = not b.x["taken"]  # `is None` false => a state is stored
             elif kind == "truth":
-                rep.violation("C11.guard", b.loc(), "start() tests the stored state value for truthiness: a stored falsy value (0, '') is re-initialised",
+                rep.violation(rule, b.loc(), "start() tests the stored state value for truthiness: a stored falsy value (0, '') is re-initialised",
                               fn.key, norm_stmt(b.node))
                 stored = b.x["taken"]
         if stored is None:
-            rep.violation("C11.guard", fn.loc(), "a path of start() never asks whether the model already holds a state", fn.key,
+            rep.violation(rule, fn.loc(), "a path of start() never asks whether the model already holds a state", fn.key,
                           "path: " + " ; ".join(e.show() for e in evs if e.kind in ("branch", "call")))
             continue
         if stored:
             n_ret += 1
-            rep.check(not puts and p.kind in ("return", "fall"), "C11.guard", fn.loc(),
+            rep.check(not puts and p.kind in ("return", "fall"), rule, fn.loc(),
                       "with a stored state start() enqueues nothing (the stored state is resumed untouched, whatever start_value says)",
                       fn.key, "stored-state path still enqueues: " + " ; ".join(e.show() for e in evs if e.kind in ("branch", "call")))
         else:
             n_put += 1
-            rep.check(len(puts) == 1, "C11.guard", fn.loc(), "without a stored state start() enqueues the initial trigger exactly once", fn.key,
+            rep.check(len(puts) == 1, rule, fn.loc(), "without a stored state start() enqueues the initial trigger exactly once", fn.key,
                       "no-state path: " + " ; ".join(e.show() for e in evs if e.kind in ("branch", "call")))
-    rep.floor("C11.guard", "stored-state paths of start()", n_ret, 1)
-    rep.floor("C11.guard", "enqueuing paths of start()", n_put, 1)
+    rep.floor(rule, "stored-state paths of start()", n_ret, 1)
+    rep.floor(rule, "enqueuing paths of start()", n_put, 1)
 
 
 def rule_who(ctx: Ctx):
@@ -115,6 +115,17 @@ def rule_constructor(ctx: Ctx):
     c05.rule_start(ctx, rule="C11.who")
 
 
+def rule_reactivation(ctx: Ctx):
+    c03.rule_guarded_pop(ctx, rule="C11.who")
+
+
+def rule_model(ctx: Ctx):
+    """C11.target: the machine is built over the model it was given (None-test), so a stored state is seen."""
+    from . import c10
+
+    c10.rule_model_choice(ctx, rule="C11.target")
+
+
 def rule_sentinel(ctx: Ctx):
     c03.rule_first(ctx, rule="C11.sentinel")
 
@@ -153,4 +164,4 @@ def rule_target(ctx: Ctx):
         rep.check("self.sm._get_initial_state()" in v, "C11.target", it.loc(), "initial activation enters the state chosen by _get_initial_state", it.key, f"return {v}")
 
 
-RULES = [rule_guard, rule_who, rule_constructor, rule_sentinel, rule_target]
+RULES = [rule_guard, rule_who, rule_constructor, rule_reactivation, rule_sentinel, rule_target, rule_model]
